@@ -263,6 +263,12 @@ func (c *c17Collector) Execute(cmd *collector.RpmCmd, cs collector.RpmControls) 
 		return collector.RPMResponse{Err: err}
 	}
 	cmd.Data = data
+	// ... and read the request parameters the way clientImpl.perform does (URL, headers)
+	hdrs := 0
+	for hk, hv := range cmd.RequestHeadersMap {
+		hdrs += len(hk) + len(hv)
+	}
+	_ = hdrs + len(cmd.License) + len(cmd.RunID) + len(cmd.Collector) + cmd.MaxPayloadSize + len(cs.AgentLanguage) + len(cs.AgentVersion)
 	k := atomic.AddInt64(&c.n, 1)
 	h := c17Mix(c.seed, k)
 	if h&7 == 0 {
